@@ -18,8 +18,8 @@ The change must need something specific to manifest - a particular thread interl
 
 BUILD AND TEST (about 1-2 minutes each on this machine; other jobs share the cores):
   cd {wt} && cmake -G Ninja -S . -B _build > /dev/null && ninja -C _build
-  ctest --test-dir {wt}/_build -j8 --timeout 900
-At baseline exactly 75 tests pass; all tests whose name contains ':mp' or 'mpi', 'runtime/scheduling*' and 'collections/matrix/band' FAIL at baseline in this sandbox (no multi-process MPI launch) - ignore those; the same 75 must still pass with your change. There is no network. Re-run ninja after editing sources. The built library is {wt}/_build/parsec/libparsec.so; headers: -I{wt} -I{wt}/parsec/include -I{wt}/_build -I{wt}/_build/parsec/include, MPI headers under /usr/lib/x86_64-linux-gnu/openmpi/include (link with mpicc if needed). For demos needing internal headers, compiling your demo with the same flags as an existing test in {wt}/tests (see `ninja -C _build -t commands <target>`) is the easiest route; you may also add the demo as a file under {wt}/seed/ and compile it by hand. A demo may amplify a race (many iterations, many threads, sched_yield/usleep in the DEMO, not in the library) and may use a timeout to detect hangs. Make it as deterministic as you reasonably can and say how often it fails.
+  ctest --test-dir {wt}/_build -j8 --timeout 2400
+At baseline exactly 75 tests pass; all tests whose name contains ':mp' or 'mpi', 'runtime/scheduling*' and 'collections/matrix/band' FAIL at baseline in this sandbox (no multi-process MPI launch) - ignore those; the same 75 must still pass with your change (dsl/dtd/task_generation is a timing test that takes 10-20 minutes when the machine is loaded - that is why the timeout above is generous; run the full suite once, at the end). There is no network. Re-run ninja after editing sources. The built library is {wt}/_build/parsec/libparsec.so; headers: -I{wt} -I{wt}/parsec/include -I{wt}/_build -I{wt}/_build/parsec/include, MPI headers under /usr/lib/x86_64-linux-gnu/openmpi/include (link with mpicc if needed). For demos needing internal headers, compiling your demo with the same flags as an existing test in {wt}/tests (see `ninja -C _build -t commands <target>`) is the easiest route; you may also add the demo as a file under {wt}/seed/ and compile it by hand. A demo may amplify a race (many iterations, many threads, sched_yield/usleep in the DEMO, not in the library) and may use a timeout to detect hangs. Make it as deterministic as you reasonably can and say how often it fails.
 
 DELIVERABLES, all under {wt}/seed/ :
   patch.diff   - `git -C {wt} diff -- parsec tools` of the source change ONLY (no seed/ files, no _build)
